@@ -3,7 +3,7 @@
    [step O d op] is one public editing call, [run_ops O d ops] a whole program. *)
 From LV Require Import Base.Bytes Model.Obj Model.DocQ Model.PageTree Model.Traverse Model.Edit
   Spec.RenumberSpec Spec.AbstractDoc Proofs.EditProofs Proofs.EditProofsEx Proofs.EditProofsTrav
-  Proofs.EditProofsDelete Proofs.EditProofsKF.
+  Proofs.EditProofsDelete Proofs.EditProofsKF Model.EditV0.
 
 (* ------------------------------------------------------------------------------------------ *)
 (* Allocation.  [alloc_ok d]: max_id is at least every object number in use.  [doc_wf d]: the
@@ -96,6 +96,18 @@ Proof. exact delete_object_spec. Qed.
 Theorem C11_strip_no_reference : forall id o, ~ In id (refs_of (strip id o)).
 Proof. exact strip_no_ref. Qed.
 
+(* the pinned code (Model/EditV0.v, before the four repairs) violated this clause: one document on which a
+   reference to the deleted object survives in the trailer, in an array, in a stream dictionary and as an indirect
+   object that is itself the reference (each reproduced on the crate through the harness before the repair) *)
+Theorem C11_delete_v0_refuted :
+  exists d' r, delete_object_v0 ex_del (5, 0)%N = Some (d', r) /\
+    In (5, 0)%N (refs_of_dict (d_trailer d')) /\
+    (exists o, lookup (d_objects d') (1, 0)%N = Some o /\ In (5, 0)%N (refs_of o)) /\
+    (exists o, lookup (d_objects d') (3, 0)%N = Some o /\ In (5, 0)%N (refs_of o)) /\
+    (exists o, lookup (d_objects d') (4, 0)%N = Some o /\ In (5, 0)%N (refs_of o)) /\
+    lookup (d_objects d') (5, 0)%N = None.
+Proof. exact delete_v0_refuted. Qed.
+
 (* ------------------------------------------------------------------------------------------ *)
 (* Open known findings (known_findings.json): the clauses "each page's decoded content is what the content
    edits imply" and "adding a resource never takes away a resource" FAIL on the classes below.  Each class is
@@ -160,6 +172,7 @@ Print Assumptions C11_frame_set.
 Print Assumptions C11_delete_no_reference_left.
 Print Assumptions C11_delete_frame.
 Print Assumptions C11_strip_no_reference.
+Print Assumptions C11_delete_v0_refuted.
 Print Assumptions C11_resources_shadow_refuted.
 Print Assumptions C11_content_shared_refuted.
 Print Assumptions C11_content_indirect_refuted.
